@@ -450,7 +450,8 @@ func (v *Value) toGoValueInterval(rootValues []*Value, checkCircularReference bo
 	case ValueNum:
 		return *v.Num, nil
 	case ValueArray:
-		var array []interface{}
+		// not a nil slice: an empty array has to become [] in JSON, not null
+		array := make([]interface{}, 0, len(v.Array))
 		for _, item := range v.Array {
 			val, err := item.Value.toGoValueInterval(append(rootValues, v), true)
 			if err != nil {
